@@ -345,7 +345,8 @@ def run_replay(prop, replay_name, witness, obligation, expects=None, timeout=120
         r = subprocess.run([VENV_PY, str(VERIF / "replay" / "driver.py"), prop], input=payload, capture_output=True,
                            text=True, timeout=timeout, env=env, cwd=str(VERIF))
     except subprocess.TimeoutExpired:
-        return {"reproduced": True, "detail": "replay timed out (non-termination?)", "timeout": True}
+        # a replay that does not finish reproduces nothing (replays of termination clauses carry their own alarms and report the loop themselves)
+        return {"reproduced": False, "detail": f"replay did not finish within {timeout} s: no failing input found", "timeout": True}
     last = [l for l in r.stdout.strip().splitlines() if l.startswith("{")]
     if not last:
         return {"reproduced": False, "detail": "replay driver produced no result", "stdout": r.stdout[-2000:], "stderr": r.stderr[-2000:], "driver_error": True}
@@ -689,8 +690,10 @@ def run_property(prop, tier="quick", seed=0, only=None, extra=None):
         "wall_s": wall,
         "violations": sum(1 for l in lines if l.startswith("VIOLATION")),
     }
-    (OUTROOT / "evidence").mkdir(parents=True, exist_ok=True)
-    (OUTROOT / "evidence" / f"{prop}.json").write_text(json.dumps(ev, indent=1, default=str))
+    # a run restricted with --only is a debugging aid: it must never replace the evidence of the full check
+    evdir = OUTROOT / ("evidence" if not only else "out/partial-evidence")
+    evdir.mkdir(parents=True, exist_ok=True)
+    (evdir / f"{prop}.json").write_text(json.dumps(ev, indent=1, default=str))
     print(f"[{prop}] tier={tier} contracts={len(results)} paths={ev['coverage']['paths']} obligations={n_ob} discharged={n_dis} "
           f"undecided={len(undecided)} violations={ev['violations']} known={len(seen_k)} bounded={len(bounded)} wall={wall}s exit={exit_code}")
     return exit_code
